@@ -37,6 +37,7 @@ func c16NoSelfRequestUnderLock(r *core.Run) {
 		if fn == nil {
 			continue
 		}
+		w.ev = viaHelpers(r.P, fn.SSA, w.ev)
 		states := lockStatesAt(la, fn.SSA, w.ev)
 		n := counter{}
 		for _, l := range allIndexLoops(fn.SSA) {
